@@ -1,11 +1,11 @@
 SPECIFICATION MCSpec
 CONSTANTS
- Calls = {1, 2, 3, 4, 5, 6}
+ Calls = {1, 2, 3, 4, 5}
  Hosts = {1, 2, 3}
  Hyst = 3
  RetryDelay = 1
  Defect = "sharedState"
- MCCalls = {1, 2, 3, 4, 5, 6}
+ MCCalls = {1, 2, 3, 4, 5}
  Serial = TRUE
  Kinds <- KSr
  Froms <- F1
@@ -14,7 +14,7 @@ CONSTANTS
  DelimSets <- DNone
  Ctxs <- CxLive
  NonZero <- BF
- NSOut <- NSAll
+ NSOut <- NSOther
  WErrs <- ENone
  CWRes <- CWOk
  CRRes <- CROk
